@@ -234,6 +234,7 @@ struct Obs {
     fatal_stats: bool,
     fatal_log: bool,
     report_total: Option<String>,
+    stats: Option<serde_json::Value>,
 }
 
 fn observe(case: &mut CliCase, w: &Worker, base_args: &[String], extra: &[String], stdin: bool) -> Result<(RunSpec, Obs), Fail> {
@@ -263,6 +264,7 @@ fn observe(case: &mut CliCase, w: &Worker, base_args: &[String], extra: &[String
             fatal_stats: es.as_ref().map(|e| !e["fatal_error"].is_null()).unwrap_or(false),
             fatal_log: cli::has_fatal(&o.stderr),
             report_total: cli::report_value(&rows, "Total Errors"),
+            stats: st.clone(),
         },
     ))
 }
@@ -386,6 +388,46 @@ fn contract_case(t0: &mut Tape, w: &Worker) -> CaseResult {
             return Err(Fail::new("C16:mute-changes-result", "muting changed the error total or the exit status", detail("-m", &spec, &o)));
         }
     }
+    // ---- a statistics mismatch is reported and gives exit n, muted or not (nothing else is reported on this input)
+    if !fatal && !reported && with_e && ot.chance(1, 2) {
+        if let Some(mut st) = o0.stats.clone() {
+            let which = ot.below(3);
+            let what = match which {
+                0 => {
+                    st["error_stats"]["total_errors"] = json!(st["error_stats"]["total_errors"].as_u64().unwrap_or(0) + 1);
+                    "error_stats.total_errors+1"
+                }
+                1 => {
+                    st["rdh_stats"]["rdhs_seen"] = json!(st["rdh_stats"]["rdhs_seen"].as_u64().unwrap_or(0) + 1);
+                    "rdh_stats.rdhs_seen+1"
+                }
+                _ => {
+                    if let Some(a) = st["error_stats"]["reported_errors"].as_array_mut() {
+                        a.push(json!("0x40: [E10] RDH sanity check failed: listed in the file only"));
+                    }
+                    st["error_stats"]["total_errors"] = json!(st["error_stats"]["total_errors"].as_u64().unwrap_or(0) + 1);
+                    "error_stats.reported_errors+1"
+                }
+            };
+            let drifted = w.path("drifted_stats").with_extension("json");
+            let _ = std::fs::write(&drifted, serde_json::to_string_pretty(&st).unwrap_or_default().as_bytes());
+            for muted in [false, true] {
+                let mut extra = vec!["-i".to_string(), drifted.display().to_string()];
+                if muted {
+                    extra.push("-m".into());
+                }
+                let (spec, o) = observe(&mut case, w, &base, &extra, stdin)?;
+                if o.code != Some(e_code as i32) {
+                    return Err(Fail::new(
+                        format!("C16:exit-status:stats-mismatch:{}:{}", if muted { "muted" } else { "unmuted" }, what),
+                        format!("statistics file differs from the run in {what} but exit status is {:?}, contract says {e_code}", o.code),
+                        detail("stats mismatch", &spec, &o),
+                    ));
+                }
+            }
+            out.labels.push(format!("stats_mismatch:{what}"));
+        }
+    }
     // -w L
     let codes_present: Vec<String> = {
         let mut v: Vec<String> = o0.red.iter().filter_map(|r| display_code(r)).collect();
@@ -491,7 +533,7 @@ pub fn build() -> Property {
         rule: "(1) 18 invalid option combinations (check sanity its-stave, trigger period in five wrong places, -E 0, stats file missing / without / with wrong extension / with json or toml in another letter case (rejected up front or read as that format, never a crash), -o without filter, -S without -D, two filters): \
                non-zero exit, empty stdout, no file created. (2) unreadable / unrecognisable inputs (missing path, empty, < 8 bytes, first RDH0 failing the documented pre-check; file and stdin; all modes): non-zero exit, no crash. \
                (3) generated inputs {clean G_conf, G_mut errors, mid-stream framing error with / without ordinary errors} x five modes x -E n (n in 1..255) x custom checks (right / wrong packet count): exit = n iff anything was reported \
-               (error, fatal input error, custom-check failure) and -E given, else 0; total_errors = listed + custom = number of red messages shown (+1 accepted when the fatal message is repeated); -m shows none and changes nothing; \
+               (error, fatal input error, custom-check failure) and -E given, else 0; total_errors = listed + custom = number of red messages shown (+1 accepted when the fatal message is repeated); -m shows none and changes nothing; on otherwise silent inputs a statistics file (-i) that differs from the run in one value (error total, RDH count, one listed message) gives exit n with and without -m; \
                -w L shows exactly the messages whose code is in L (L includes codes that are prefixes / extensions of present codes); -e N shows <= N. Non-trivial = >= 2 distinct codes present or a fatal/invalid class.",
         assumptions: vec![
             "with a fatal message present both total and total+1 shown messages are accepted (the statement does not say whether the fatal line is an error message)".into(),
